@@ -629,18 +629,9 @@ def inp_of(m, form, X, rows):
 
 def oracles(ctx, models, rng, nr, nbatch, deep):
     checks = 0
-    for mi, m in enumerate(models):
+    for m in models:
         mdl = m.model
         logtol = 1e-8 * max(1.0, m.cond)
-        if mi == 0 or (m.singular and mi < 8):
-            # a batch of size 0
-            empty = pd.DataFrame(np.empty((0, m.d)), columns=m.labels)
-            for meth in ('probability_density', 'log_probability_density', 'cumulative_distribution'):
-                r = call(lambda: getattr(mdl, meth)(empty))
-                checks += 1
-                if not (r[0] == 'ok' and r[1].size == 0) and not (meth == 'cumulative_distribution' and m.singular):
-                    ctx.fail_input(meth, inp_of(m, 'empty-frame', empty, np.empty((0, m.d))), r[1],
-                                   'an empty result for a batch of size 0', f'{meth}:raises[empty batch]')
         for b in range(nbatch):
             n = batch_sizes(rng, deep)
             rows, far = gen_rows(rng, nr, m, n, rng.choice(['train', 'jitter', 'far', 'mixed', 'mixed']))
